@@ -87,6 +87,13 @@ def program_st(draw):
         i = len(shapes) - 1 if D_.chance(2, 3) else D_.int(0, len(shapes) - 1)
         shp = shapes[i]
         kind = D_.weighted([("slice", 6), ("rechunk", 5), ("add_s", 2), ("neg", 1), ("T", 1 if len(shp) == 2 else 0), ("sum", 1 if len(shp) >= 1 else 0), ("concat", 1), ("copy", 1), ("add", 1), ("swvred", (8 if shp == (8, 6) else 3) if len(shp) == 2 and min(shp) >= 4 else 0)])
+        if len(shp) >= 1 and D_.chance(1, 10):
+            # the same input reduced under two different weight arrays (da.reduction(weights=...)): the weights are
+            # an operand like any other and must separate the names
+            ax = D_.int(0, len(shp) - 1)
+            stmts.append({"op": "wsum", "args": [i], "axis": ax, "keepdims": False, "wshape": D_.choice(["full", "axis"])})
+            shapes.append(tuple(n for k, n in enumerate(shp) if k != ax))
+            continue
         if kind == "swvred":
             # the same input under windows along different axes / of different length: helper tasks of the
             # native kernel must not be shared between them
